@@ -42,7 +42,7 @@ ASSUMPTIONS = [
     'result.pvalue is compared with the normal law when it is not None',
 ]
 _SHRINK = os.environ.get('VERIF_SHRINK_S')        # shorter shrinking for sensitivity runs
-BUDGET = {'quick': {'cases': 4000, 'shards': 16, 'seconds': 120,
+BUDGET = {'quick': {'cases': 16000, 'shards': 16, 'seconds': 120,
                     'shrink_s': int(_SHRINK or 45)},
           'thorough': {'cases': 300000, 'shards': 16, 'seconds': 900,
                        'shrink_s': int(_SHRINK or 60)}}
